@@ -50,6 +50,17 @@ func GenCatalogue() []GenLayout {
 		ThumbsRep("thumbs", 1, 4, 2),
 		StppRep("sub_en", 1000, UniformDurs(4, 2000)))
 
+	// a frame rate that changes between segments: the common sample duration of a segment is in its tfhd only
+	vfr := VideoRep("V300", 90000, 3600, []uint64{180000, 180000, 180000, 90000})
+	vfr.SegSampleDurs = []uint32{0, 0, 0, 1800}
+	vfr.CompactTrun = true
+	add("ok", "2 s + 2 s + 2 s at 25 fps and a last segment of 1 s at 50 fps; sample durations only as tfhd defaults (trun without per-sample durations)", "g_vfr_last",
+		vfr, StppRep("sub_en", 1000, []uint64{2000, 2000, 2000, 1000}))
+	vfr2 := VideoRep("V300", 90000, 1800, []uint64{90000, 180000, 180000, 180000})
+	vfr2.SegSampleDurs = []uint32{0, 3600, 3600, 3600}
+	vfr2.CompactTrun = true
+	add("ok", "first segment 1 s at 50 fps, then 3 x 2 s at 25 fps; tfhd defaults only", "g_vfr_first", vfr2)
+
 	v10m := UniformDurs(4, 20000000)
 	add("ok", "timescale 10 MHz (Smooth-Streaming style), 4 x 2 s at 25 fps, $Time$: products with 1000 leave 64 bits after 58 years", "g_10mhz_tl",
 		tl(VideoRep("V1", 10000000, 400000, v10m)),
